@@ -33,6 +33,9 @@ func held(mu any) bool { return false }
 //@   ensures#failed-send-rolled-back{C18,C15,C01,C06} result1 != nil ==> result0 == 0 &&
 //@      s.bufferedAmount == old(s.bufferedAmount) && s.sequenceNumber == old(s.sequenceNumber) &&
 //@      s.nextOrderedMID == old(s.nextOrderedMID) && s.nextUnorderedMID == old(s.nextUnorderedMID)
+//@   ensures#empty-write-has-no-effect{C18,C01} len(payload) == 0 ==> result0 == 0 &&
+//@      s.bufferedAmount == old(s.bufferedAmount) && s.sequenceNumber == old(s.sequenceNumber) &&
+//@      s.nextOrderedMID == old(s.nextOrderedMID) && s.nextUnorderedMID == old(s.nextUnorderedMID)
 //@   ensures#accepted{C15,C18} result1 == nil ==> result0 == len(payload) && s.bufferedAmount == old(s.bufferedAmount)+uint64(len(payload))
 
 //@ func Stream.onBufferReleased
